@@ -66,9 +66,11 @@ type C05Param struct {
 	N       int     `json:"n"`
 	NilPtr  bool    `json:"nil_ptr"`
 	HasBCtx bool    `json:"has_bctx"`
+	Carried bool    `json:"carried"` // the BusinessActionContext handed in already holds entries
+	Shared  bool    `json:"shared"`  // kind D: the same *BusinessActionContext object is reused by every prepare of the episode
 }
 
-func (p C05Param) build() (params interface{}, tagged map[string]interface{}) {
+func (p C05Param) build(shared *tm.BusinessActionContext) (params interface{}, tagged map[string]interface{}) {
 	nested := c05Nested{City: p.S, Zip: p.N, Tags: []string{p.S, "x"}}
 	switch p.Kind {
 	case "A", "ptrA":
@@ -91,11 +93,20 @@ func (p C05Param) build() (params interface{}, tagged map[string]interface{}) {
 		return v, tagged
 	case "C":
 		v := c05ParamsC{Order: p.S}
+		if p.Carried {
+			v.BusinessActionContext.ActionContext = map[string]interface{}{"carried-over": "from the caller"}
+		}
 		return v, map[string]interface{}{"order": v.Order}
 	case "D":
 		v := c05ParamsD{Order: p.S, Big: p.I}
 		if p.HasBCtx {
 			v.Ctx = &tm.BusinessActionContext{}
+			if p.Carried {
+				v.Ctx.ActionContext = map[string]interface{}{"carried-over": "from the caller"}
+			}
+			if p.Shared && shared != nil {
+				v.Ctx = shared
+			}
 		}
 		return v, map[string]interface{}{"order": v.Order, "big": v.Big}
 	}
@@ -217,7 +228,7 @@ func genC05(seed uint64, tier string) *C05Plan {
 			pr := C05Prep{Action: g.Intn(5), Reg: "ok", Try: "ok"}
 			pr.Param = C05Param{Kind: simkit.Pick(g, []string{"A", "ptrA", "B", "ptrB", "C", "D"}), S: simkit.Pick(g, strs),
 				F: simkit.Pick(g, []float64{0, 0.1, -3.5, 1e10, 12345.678}), I: simkit.Pick(g, []int64{0, 1, -1, 9007199254740993, 9223372036854775807, -9223372036854775808}),
-				N: g.Intn(100), NilPtr: g.Bool(), HasBCtx: g.Bool()}
+				N: g.Intn(100), NilPtr: g.Bool(), HasBCtx: g.Bool(), Carried: g.Prob(0.3), Shared: g.Prob(0.3)}
 			if g.Prob(0.15) {
 				pr.Reg = simkit.Pick(g, []string{"fail", "silent"})
 			}
@@ -372,6 +383,7 @@ func runC05(t *testing.T, seed uint64, planJSON []byte, tier string) (res *Resul
 			pres := make([]prepRes, len(ep.Preps))
 			var xid string
 			gdone := false
+			sharedCtx := &tm.BusinessActionContext{}
 			sim.Go("c05-gtx", func() {
 				defer func() { recover(); gdone = true }()
 				tm.WithGlobalTx(context.Background(), &tm.GtxConfig{Name: fmt.Sprintf("c05-%d", ei), Timeout: 60 * time.Second}, func(ctx context.Context) error {
@@ -380,7 +392,7 @@ func runC05(t *testing.T, seed uint64, planJSON []byte, tier string) (res *Resul
 						if pr.Action < 0 || pr.Action >= len(proxies) {
 							continue
 						}
-						params, tagged := pr.Param.build()
+						params, tagged := pr.Param.build(sharedCtx)
 						pres[k].tagged = tagged
 						if pr.Try == "err" && pr.Reg == "ok" {
 							recs[pr.Action].script["prepare"] = append(recs[pr.Action].script["prepare"], "err")
@@ -454,9 +466,10 @@ func runC05(t *testing.T, seed uint64, planJSON []byte, tier string) (res *Resul
 							vv("application-data", "appdata-tagged-field", "actionContext[%q] = %s, want %s", key, gb, wb)
 						}
 					}
-					for _, bad := range []string{"Note", "secret", "-", ""} {
-						if _, ok := ac[bad]; ok {
-							vv("application-data", "appdata-untagged-leak", "actionContext carries %q which is not a tagged parameter", bad)
+					framework := map[string]bool{"action-start-time": true, "host-name": true, "sys::prepare": true, "sys::commit": true, "sys::rollback": true, "actionName": true}
+					for key := range ac {
+						if _, isTagged := pres[k].tagged[key]; !isTagged && !framework[key] {
+							vv("application-data", "appdata-untagged-leak", "actionContext carries %q which is neither a tagged parameter of this prepare nor a framework entry", key)
 						}
 					}
 				}
